@@ -174,6 +174,62 @@ def generate(repo, g):
     g.define('delRequiresNotCrashed', 'Bool', lean_bool(table[guard][1]),
              'subprocess/__init__.py:InferenceStateSubprocess.__del__ guard `%s`' % guard)
 
+    # --- InferenceStateSubprocess.__getattr__.wrapper: where does `self._used = True` stand relative to
+    # `self._compiled_subprocess.run(...)`?  (The helper creates the state before the function runs, so a
+    # request that comes back as an exception has left a state behind as well.)
+    ga = sub.find('InferenceStateSubprocess.__getattr__')
+    wr = [n for n in ga.body if isinstance(n, ast.FunctionDef) and n.name == 'wrapper']
+    if len(wr) != 1:
+        raise TieBroken('InferenceStateSubprocess.__getattr__ no longer defines exactly one `wrapper`', u(ga))
+    wr = wr[0]
+    i_used = [i for i, st in enumerate(wr.body) if u(st) == 'self._used = True']
+    i_run = [i for i, st in enumerate(wr.body)
+             if any(isinstance(c, ast.Call) and u(c.func) == 'self._compiled_subprocess.run' for c in ast.walk(st))]
+    all_used = [n for n in ast.walk(ga) if isinstance(n, (ast.Assign, ast.AugAssign, ast.AnnAssign))
+                and '_used' in u(n).split('=')[0]]
+    if len(i_used) != 1 or len(i_run) != 1 or len(all_used) != 1:
+        raise TieBroken('wrapper: expected exactly one top-level `self._used = True` and one top-level statement '
+                        'calling self._compiled_subprocess.run(...)', u(wr))
+    run_stmt = wr.body[i_run[0]]
+    if not (isinstance(run_stmt, ast.Assign) and isinstance(run_stmt.value, ast.Call)
+            and u(run_stmt.value.func) == 'self._compiled_subprocess.run'
+            and u(run_stmt.value.args[0]) == 'self._inference_state_id'):
+        raise TieBroken('wrapper: the run(...) statement changed shape', u(run_stmt))
+    g.define('usedSetBeforeRun', 'Bool', lean_bool(i_used[0] < i_run[0]),
+             'subprocess/__init__.py:InferenceStateSubprocess.__getattr__.wrapper: `self._used = True` stands '
+             'before `self._compiled_subprocess.run(...)`')
+    # _used is written nowhere else in the class (only __init__: False)
+    cls_node = [n for n in ast.walk(sub.tree) if isinstance(n, ast.ClassDef) and n.name == 'InferenceStateSubprocess'][0]
+    writes = sorted(u(n) for n in ast.walk(cls_node) if isinstance(n, (ast.Assign, ast.AugAssign))
+                    and any('_used' in u(t) for t in (n.targets if isinstance(n, ast.Assign) else [n.target])))
+    if writes != ['self._used = False', 'self._used = True']:
+        raise TieBroken('InferenceStateSubprocess: `_used` is written somewhere else than __init__ (False) and '
+                        'wrapper (True)', repr(writes))
+    # __del__ hands the id to delete_inference_state, which queues it; run() flushes the queue first
+    dbody = [u(x) for x in d.body[0].body]
+    if dbody != ['self._compiled_subprocess.delete_inference_state(self._inference_state_id)'] or d.body[0].orelse:
+        raise TieBroken('InferenceStateSubprocess.__del__ body changed', repr(dbody))
+    dis = sub.find('CompiledSubprocess.delete_inference_state')
+    stmts = [x for x in dis.body if not (isinstance(x, ast.Expr) and isinstance(x.value, ast.Constant))]
+    if [u(x) for x in stmts] != ['self._inference_state_deletion_queue.append(inference_state_id)']:
+        raise TieBroken('delete_inference_state no longer just appends to the deletion queue', repr([u(x) for x in stmts]))
+    rn = sub.find('CompiledSubprocess.run')
+    rb = [x for x in rn.body if not (isinstance(x, ast.Expr) and isinstance(x.value, ast.Constant))]
+    ok = (len(rb) == 3 and isinstance(rb[0], ast.While) and u(rb[0].test) == 'True'
+          and len(rb[0].body) == 1 and isinstance(rb[0].body[0], ast.Try)
+          and [u(x) for x in rb[0].body[0].body] == ['delete_id = self._inference_state_deletion_queue.pop()']
+          and [except_names(h) for h in rb[0].body[0].handlers] == [['IndexError']]
+          and [u(x) for x in rb[0].body[0].handlers[0].body] == ['break']
+          and [u(x) for x in rb[0].body[0].orelse] == ['self._send(delete_id, None)']
+          and not rb[0].body[0].finalbody and not rb[0].orelse
+          and isinstance(rb[1], ast.Assert)
+          and u(rb[2]) == 'return self._send(inference_state_id, function, args, kwargs)')
+    if not ok:
+        raise TieBroken('CompiledSubprocess.run is no longer `flush the whole deletion queue, then send the request`',
+                        u(rn))
+    g.define('runFlushesQueueFirst', 'Bool', 'true',
+             'subprocess/__init__.py:CompiledSubprocess.run `while True: pop / _send(delete_id, None)` before the request')
+
     # --- Environment._get_subprocess
     gs = envs.find('Environment._get_subprocess')
     first = gs.body[0]
